@@ -914,7 +914,7 @@ class SemantivaOrchestrator(ABC):
             import json
 
             # Deep copy the sanitized metadata
-            prov = json.loads(json.dumps(pre))
+            prov = json.loads(json.dumps(pre, default=repr))
             # Add raw expressions from _expr_src
             raw_exprs = getattr(proc_cls, "_expr_src", {})
             if raw_exprs:
@@ -922,8 +922,12 @@ class SemantivaOrchestrator(ABC):
                     prov.setdefault("param_expressions", {}).setdefault(param_name, {})[
                         "expr"
                     ] = expr_src
+            try:
+                pre_semantic_id = compute_node_semantic_id(pre)
+            except Exception:
+                pre_semantic_id = "error"
             preprocessing_data = {
-                "semantic_id": compute_node_semantic_id(pre),
+                "semantic_id": pre_semantic_id,
                 "preprocessing_provenance": prov,
             }
 
